@@ -47,8 +47,28 @@ if %r:
 pre = %r
 for m in pre:
     importlib.import_module(m)
+OBJ = %r
+if OBJ:
+    # a backend that is an OBJECT put into sys.modules (the documented way to plug in a recorder), empty so far
+    class _Rec:
+        __name__ = "pysnark.nobackend"
+        def __init__(self): self.cons = []
+        def __len__(self): return len(self.cons) if OBJ == "falsy" else 1 + len(self.cons)
+        def privval(self, v): return 0
+        def pubval(self, v): return 0
+        def zero(self): return 0
+        def one(self): return 0
+        def fieldinverse(self, v): return 0
+        def get_modulus(self): return 10000
+        def add_constraint(self, a, b, c): self.cons.append((a, b, c))
+        def prove(self): pass
+    sys.modules["pysnark.nobackend"] = _Rec()
 import pysnark.runtime as rt
 b = rt.backend
+if OBJ:
+    print("RESULT " + json.dumps({"object_in_use": b is sys.modules["pysnark.nobackend"], "name": rt.backend_name}))
+    rt.autoprove = False
+    sys.exit(0)
 out = {"name": rt.backend_name, "module": getattr(b, "__name__", None)}
 try:
     out["modulus"] = b.get_modulus()
@@ -112,7 +132,7 @@ def run_case(cfg):
     import tempfile, shutil
     tmp = tempfile.mkdtemp(prefix="verif-c19-")
     try:
-        r = subprocess.run([sys.executable, "-c", CHILD % (bool(cfg.get("interactive")), [MOD[n] for n in pre], IFACE)], cwd=tmp, env=envv,
+        r = subprocess.run([sys.executable, "-c", CHILD % (bool(cfg.get("interactive")), [MOD[n] for n in pre], cfg.get("object"), IFACE)], cwd=tmp, env=envv,
                            capture_output=True, text=True, timeout=120, start_new_session=True)
     finally:
         shutil.rmtree(tmp, ignore_errors=True)
@@ -125,6 +145,14 @@ def run_case(cfg):
     desc = "PYSNARK_BACKEND=%r, pre-imported %r, loadable %r%s%s" % (env, pre, sorted(k for k, v in load.items() if v is True),
                                                                     ", qaptools executables present but not executable" if load["qaptools"] == "noexec" else "",
                                                                   ", interactive session (get_ipython defined)" if cfg.get("interactive") else "")
+    if cfg.get("object"):
+        if res is None:
+            return "%s, backend object (%s) in sys.modules: the runtime failed to start: %s" % (desc, cfg["object"], (r.stderr.strip().splitlines() or ["?"])[-1]), info
+        if not res.get("object_in_use") or res.get("name") != "nobackend":
+            return "%s: a backend OBJECT was put into sys.modules['pysnark.nobackend'] before the import (%s while empty), yet backend %r is in use" % (
+                desc, cfg["object"], res.get("name")), info
+        info["selected"] = "nobackend"
+        return None, info
     if exp[0] == "fail":
         if res is not None or r.returncode == 0:
             return "%s: the named backend cannot be loaded, yet the run went on with backend %r" % (desc, res and res["name"]), info
@@ -187,6 +215,9 @@ def all_configs():
                     out.append({"env": env, "pre": pre, "load": load})
                     if len(pre) <= 1:
                         out.append({"env": env, "pre": pre, "load": load, "interactive": True})
+    for env in (None, "snarkjs", "bogus", "nobackend"):
+        for kind in ("falsy", "truthy"):
+            out.append({"env": env, "pre": [], "load": loads[2], "object": kind})
     return out
 
 
